@@ -665,6 +665,113 @@ rc::Gen<Case> gen_nanrank() {
   return make_case({{"fam", range(0, 2)}, {"seed", range(1, 1 << 30)}, {"hra", range(0, 1)}, {"k0", range(0, 15)}, {"n", range(0, 499)}}, rc::gen::just(std::vector<Op>{}));
 }
 
+
+// ------------------------------------------------------------------ very long streams through the merge tree
+// n far beyond 2^32 cannot be fed item by item, but merging a sketch with a copy of itself doubles n: d self-merges of an m-item
+// sketch represent the stream in which every one of the m items occurs 2^d times (n = m * 2^d, up to about 2^45). The exact
+// multiset is known in closed form, so conservation (n, extremes, weights summing to n, view total) and the coherence of
+// the answers (rank monotone, inclusive >= exclusive, rank == weight recomputed from the view, rank(max) = 1, CDF/PMF) are
+// checked exactly as for short streams, in 64-bit (128-bit for the sums).
+template <typename Sk> void huge_one(Sk sk, const Case& cs, const char* fam) {
+  vf::Rng r(static_cast<uint64_t>(cs.get("seed", 1)) * 77 + 5);
+  const uint64_t m = 1 + static_cast<uint64_t>(cs.get("m", 1)) % 3000;
+  const int d = static_cast<int>(cs.get("d", 0) % 36);
+  const int via = static_cast<int>(cs.get("via", 0) % 3);
+  std::vector<int64_t> base;
+  for (uint64_t i = 0; i < m; ++i) { const int64_t v = static_cast<int64_t>(r.below(2 * m + 1)) - static_cast<int64_t>(m); base.push_back(v); sk.update(v); }
+  std::sort(base.begin(), base.end());
+  for (int j = 0; j < d; ++j) {
+    Sk copy(sk);
+    if (via == 0) sk.merge(static_cast<const Sk&>(copy));
+    else if (via == 1) sk.merge(std::move(copy));
+    else { copy.merge(static_cast<const Sk&>(sk)); sk = std::move(copy); }
+  }
+  const uint64_t n = m << d;
+  std::ostringstream c; c << fam << " k=" << sk.get_k() << " m=" << m << " self-merged " << d << " times (n = " << n << "): ";
+  const std::string ctx = c.str();
+  VF_CHECK(sk.get_n() == n, "n", ctx << "get_n " << sk.get_n());
+  VF_CHECK(!sk.is_empty() && sk.get_min_item() == base.front() && sk.get_max_item() == base.back(), "min-max", ctx << "min " << sk.get_min_item() << " max " << sk.get_max_item() << " expected " << base.front() << " " << base.back());
+  const uint64_t retained = sk.get_num_retained();
+  // iteration
+  unsigned __int128 sumw = 0; uint64_t cnt = 0;
+  for (auto it = sk.begin(); it != sk.end(); ++it) {
+    const auto e = *it; ++cnt;
+    VF_CHECK(cnt <= retained, "iter-count", ctx << "iteration yields more than num_retained = " << retained);
+    VF_CHECK(e.second != 0 && (e.second & (e.second - 1)) == 0, "iter-weight-pow2", ctx << "weight " << e.second << " is not a power of two");
+    VF_CHECK(std::binary_search(base.begin(), base.end(), e.first), "retained-not-in-stream", ctx << "retained item " << e.first << " was never accepted");
+    sumw += e.second;
+  }
+  VF_CHECK(cnt == retained, "iter-count", ctx << "iteration yields " << cnt << " entries, num_retained " << retained);
+  VF_CHECK(sumw == n, "iter-weight-sum", ctx << "weights sum to " << static_cast<uint64_t>(sumw) << (sumw >> 64 ? " (+2^64..)" : ""));
+  // sorted view
+  auto view = sk.get_sorted_view();
+  std::vector<std::pair<int64_t, uint64_t>> V;  // (item, cumulative weight)
+  uint64_t prev = 0;
+  for (auto it = view.begin(); it != view.end(); ++it) {
+    const auto e = *it;
+    VF_CHECK(V.size() < retained, "view-size", ctx << "sorted view iterates more than " << retained << " entries");
+    VF_CHECK(e.second > prev, "view-cumulative", ctx << "cumulative weight not increasing at entry " << V.size() << ": " << prev << " -> " << e.second);
+    VF_CHECK(V.empty() || V.back().first <= e.first, "view-order", ctx << "sorted view out of order at " << V.size());
+    V.emplace_back(e.first, e.second); prev = e.second;
+  }
+  VF_CHECK(V.size() == retained, "view-size", ctx << "sorted view has " << V.size() << " entries, num_retained " << retained);
+  VF_CHECK(prev == n, "view-total", ctx << "sorted view total weight " << prev);
+  // ranks at generated points (stream items, their neighbours, the extremes)
+  std::vector<int64_t> pts{base.front() - 1, base.front(), base.back(), base.back() + 1};
+  for (int i = 0; i < 40; ++i) pts.push_back(base[r.below(m)] + static_cast<int64_t>(r.below(3)) - 1);
+  std::sort(pts.begin(), pts.end()); pts.erase(std::unique(pts.begin(), pts.end()), pts.end());
+  double pe = -1, pi = -1;
+  for (int64_t x : pts) {
+    const double re = sk.get_rank(x, false), ri = sk.get_rank(x, true);
+    VF_CHECK(re >= 0 && ri <= 1 && re <= ri, "rank-range", ctx << "rank(" << x << ") exclusive " << re << " inclusive " << ri);
+    VF_CHECK(re >= pe && ri >= pi, "rank-monotone", ctx << "rank decreases at " << x << ": exclusive " << pe << " -> " << re << ", inclusive " << pi << " -> " << ri);
+    pe = re; pi = ri;
+    uint64_t we = 0, wi = 0;
+    for (const auto& e : V) { if (e.first < x) we = e.second; if (e.first <= x) wi = e.second; else break; }
+    VF_CHECK(std::fabs(re - static_cast<double>(we) / static_cast<double>(n)) <= 1e-12 && std::fabs(ri - static_cast<double>(wi) / static_cast<double>(n)) <= 1e-12, "rank-vs-view",
+             ctx << "rank(" << x << ") exclusive " << re << " inclusive " << ri << ", weight below / up to it in the sorted view " << we << " / " << wi);
+  }
+  VF_CHECK(sk.get_rank(base.back(), true) == 1.0 && sk.get_rank(base.front(), false) == 0.0, "rank-extremes", ctx << "inclusive rank of max " << sk.get_rank(base.back(), true) << ", exclusive rank of min " << sk.get_rank(base.front(), false));
+  // quantiles
+  int64_t pq = base.front();
+  for (int i = 0; i <= 20; ++i) {
+    const double rk = i / 20.0;
+    for (int incl = 0; incl <= 1; ++incl) {
+      const int64_t q = sk.get_quantile(rk, incl != 0);
+      VF_CHECK(q >= base.front() && q <= base.back(), "quantile-range", ctx << "quantile(" << rk << ") = " << q << " outside [min, max]");
+      if (incl == 1) { VF_CHECK(q >= pq, "quantile-monotone", ctx << "quantile decreases at rank " << rk << ": " << pq << " -> " << q); pq = q; }
+    }
+  }
+  // CDF / PMF
+  std::vector<int64_t> sp(pts.begin() + 1, pts.end() - 1);
+  if (!sp.empty()) for (int incl = 0; incl <= 1; ++incl) {
+    const auto cdf = sk.get_CDF(sp.data(), static_cast<uint32_t>(sp.size()), incl != 0);
+    const auto pmf = sk.get_PMF(sp.data(), static_cast<uint32_t>(sp.size()), incl != 0);
+    VF_CHECK(cdf.size() == sp.size() + 1 && pmf.size() == sp.size() + 1 && cdf.back() == 1.0, "cdf-shape", ctx << "CDF size " << cdf.size() << " last " << cdf.back());
+    double tot = 0;
+    for (size_t i = 0; i < sp.size(); ++i) VF_CHECK(cdf[i] == sk.get_rank(sp[i], incl != 0), "cdf-vs-rank", ctx << "CDF[" << i << "] " << cdf[i] << " rank " << sk.get_rank(sp[i], incl != 0));
+    for (size_t i = 0; i < pmf.size(); ++i) { tot += pmf[i]; VF_CHECK(pmf[i] >= 0 && std::fabs(pmf[i] - (cdf[i] - (i ? cdf[i - 1] : 0.0))) <= 1e-12, "pmf-vs-cdf", ctx << "PMF[" << i << "] " << pmf[i]); }
+    VF_CHECK(std::fabs(tot - 1.0) <= 1e-9, "pmf-sum", ctx << "PMF sums to " << tot);
+  }
+  vf::label(std::string("fam:") + fam);
+  vf::label(n >= (1ull << 40) ? "n>=2^40" : n >= (1ull << 32) ? "n>=2^32" : n >= (1ull << 24) ? "n>=2^24" : "n<2^24");
+  if (n >= (1ull << 32)) vf::nontrivial();
+}
+void prop_huge(const Case& cs) {
+  ChecksFlush f;
+  vf::own_randomness(static_cast<uint64_t>(cs.get("seed", 1)));
+  const int fam = static_cast<int>(((cs.get("fam", 0) % 3) + 3) % 3);
+  const uint16_t k = k_from(fam, static_cast<uint64_t>(cs.get("k0", 0)));
+  if (fam == F_KLL) huge_one(kll_sketch<int64_t>(k), cs, "kll");
+  else if (fam == F_REQ) huge_one(req_sketch<int64_t>(k, cs.get("hra", 1) & 1), cs, (cs.get("hra", 1) & 1) ? "req-hra" : "req-lra");
+  else huge_one(quantiles_sketch<int64_t>(k), cs, "classic");
+}
+rc::Gen<Case> gen_huge() {
+  using namespace vf;
+  return make_case({{"fam", range(0, 2)}, {"seed", range(1, 1 << 30)}, {"hra", range(0, 1)}, {"k0", range(0, 15)}, {"m", range(0, 2999)},
+                    {"d", rc::gen::weightedOneOf<int64_t>({{1, range(0, 15)}, {3, range(16, 35)}})}, {"via", range(0, 2)}}, rc::gen::just(std::vector<Op>{}));
+}
+
 // ------------------------------------------------------------------ generators
 rc::Gen<int64_t> ksel_small() { return rc::gen::weightedOneOf<int64_t>({{6, vf::range(0, 5)}, {3, vf::range(6, 11)}, {1, vf::range(12, 15)}}); }
 
@@ -730,12 +837,14 @@ int main(int argc, char** argv) {
   std::vector<vf::Sub> subs;
   subs.push_back({"main", gen_main, prop_main, 1.0});
   subs.push_back({"large", gen_large, prop_large, 0.04, 100});
+  subs.push_back({"huge_n", gen_huge, prop_huge, 0.05, 100});
   if (vf::env("VF_WORKER", "0") == "0" || argc >= 3) subs.push_back({"nanrank", gen_nanrank, prop_nanrank, 0.004, 100});
   return vf::main_driver(argc, argv, "C07", "c07_quantiles",
                          "case = family (KLL / REQ HRA|LRA / classic) x item type and comparator (float less, double greater, int64 less, string "
                          "length-then-lexicographic) x k per slot (equal or unequal) x op history over 4 live sketches (pattern chunks, edge-value "
                          "updates incl. NaN, merges const-lvalue/lvalue/rvalue, copies, re-creation, query batches); every touched sketch is compared "
-                         "with the exact multiset model after every op; non-trivial = at least one merge whose receiver or source was in estimation "
-                         "mode; distinct = distinct case text",
+                         "with the exact multiset model after every op; sub huge_n = an m-item sketch merged with a copy of itself up to 35 times "
+                         "(n up to ~2^46, the multiset known in closed form); non-trivial = at least one merge whose receiver or source was in "
+                         "estimation mode (huge_n: n >= 2^32); distinct = distinct case text",
                          subs);
 }
